@@ -156,6 +156,18 @@ def run(ck):
             for j in range(k2 + 6):
                 lines.append("enq " + apci.asdu(30, 3, 1, bytes([j, 0, 0])).hex())
             lines += ["tick %d" % (k2 + 8), "rxs c1 -1", "tick %d" % (k2 + 8), "rxs c1", "tick %d" % (k2 + 8)]
+        if i % 4 == 2:
+            # data transfer is stopped and started again on the SAME connection while replies are still unacknowledged (only event
+            # ASDUs hold STOPDT con back): the window is what it was, events offered now must wait for acknowledgements
+            vs0 = 0
+            lines = hdr + ["rx c0 " + apci.STARTDT_ACT.hex(), "tick", "rx c0 " + apci.i_frame(0, 0, apci.asdu(100, 6, 1, bytes([0, 0, 0, 20]))).hex(), "tick 3",
+                           "rx c0 " + apci.STOPDT_ACT.hex(), "tick", "rx c0 " + apci.STARTDT_ACT.hex(), "tick"]
+            lines += ["enq " + apci.asdu(30, 3, 1, bytes([j & 255, j >> 8, 0])).hex() for j in range(1, k + 3)] + ["tick %d" % (k + 3)]
+            steps = []
+            tot2 = min(burst + 1, k) + k + 2
+            for a_ in range(1, tot2 + 1):
+                lines += ["rx c0 " + apci.s_frame(a_ % 32768).hex(), "tick 3"]
+            lines += ["rx c0 " + apci.s_frame((tot2 + 50) % 32768).hex(), "tick 2"]
         sid = "w%d" % i
         tscripts.append((sid, lines))
         tmeta[sid] = (k, burst, vs0, steps)
@@ -244,9 +256,10 @@ def run(ck):
                         seen[ci] = seen.get(ci, 0) + n
                         if ci in kconn and seen[ci] - ackd.get(ci, 0) > kconn[ci] and not bad:
                             bad = "c%d has %d I-frames sent and not acknowledged, k=%d was configured when it was accepted" % (ci, seen[ci] - ackd.get(ci, 0), kconn[ci])
+        cycle = any(l.endswith(apci.STOPDT_ACT.hex()) for l in lines)     # replies still parked are dropped when data transfer is restarted
         if not bad and ids != sorted(ids):
             bad = "replies transmitted out of order: %s" % ids
-        if not bad and sorted(set(ids)) != sorted(ok_sends):
+        if not bad and not cycle and sorted(set(ids)) != sorted(ok_sends):
             bad = "replies accepted by the send call %s but transmitted %s" % (ok_sends, ids)
         if not bad and not closed:
             bad = "S-frame with N(R) outside the window did not close the connection"
@@ -313,6 +326,39 @@ def run(ck):
                 acked = max(acked, sent + (int(w[1]) if len(w) > 1 else 0))
         ck.nontriv(("client-k", tuple(ks)))
     ck.count("client_k_scripts", len(cscripts))
+    # client: the N(R) of a received I-format APDU must lie in the window -- also when the window is empty (then it must equal V(S))
+    vscripts, vmeta = [], {}
+    P = apci.asdu(200, 3, 1, bytes([1, 0])).hex()
+    for i in range(12 if quick else 120):
+        k = rng.choice([1, 3, 12])
+        nout = rng.choice([0, 0, 1, min(2, k)])
+        dnr = rng.choice([1, 2, 5, 100, -1 - nout, 16384, 32767 - nout])
+        lines = ["cfg k=%d w=8" % k, "connect", "startdt", "step", "rx " + apci.STARTDT_CON.hex(), "step", "rxi " + P, "step"]
+        lines += ["send " + A] * nout + ["step"]
+        lines += ["rxi %s 0 %d" % (P, dnr), "step", "step"]
+        vscripts.append(("cv%d" % i, lines)); vmeta["cv%d" % i] = (k, nout, dnr)
+    rv = runner.run_batch(hcli, vscripts)
+    for sid, lines in vscripts:
+        k, nout, dnr = vmeta[sid]
+        o = rv.get(sid, dict(out=[], crash=None))
+        ck.evaluations += 1
+        if o["crash"]:
+            ck.fail("input", "crash:%s:%s" % (o["crash"]["kind"], o["crash"]["site"]), "client aborted: %s at %s" % (o["crash"]["kind"], o["crash"]["site"]), {"script": lines, "stderr": o["crash"]["text"]})
+            continue
+        blocks, cur = [], []
+        for l in o["out"]:
+            if l == ".":
+                blocks.append(cur); cur = []
+            else:
+                cur.append(l)
+        tail = [l for b in blocks[len(lines) - 2:len(lines)] for l in b]
+        delivered = sum(1 for l in tail if l.startswith("cb asdu"))
+        closed = any(l.startswith("ev CLOSED") for l in tail)
+        if not closed or delivered:
+            ck.fail("input", "oracle:kbuf:client-invalid-nr-accepted", "client (k=%d, %d I-frames outstanding) received an I-format APDU whose N(R) is %+d off the window: %s" % (
+                k, nout, dnr, "the ASDU was delivered" if delivered else "the connection was not closed"), {"script": lines, "role": "client-trace", "observed": tail[-4:]})
+        ck.nontriv(("client-nr", k, nout, dnr))
+    ck.count("client_nr_scripts", len(vscripts))
     ck.extra["exhaustive"] = not quick
     ck.notes.append("client 'send refused while full' at API level is exercised by the C03 client harness")
 
